@@ -82,6 +82,16 @@ func (r ReferenceStorage) IterReferences() (storer.ReferenceIter, error) {
 		return nil, err
 	}
 
+	// A base reference that was removed or overwritten in this transaction
+	// is not part of the listing: the temporal entry (if any) replaces it.
+	baseIter = storer.NewReferenceFilteredIter(func(ref *plumbing.Reference) bool {
+		if _, deleted := r.deleted[ref.Name()]; deleted {
+			return false
+		}
+		_, err := r.temporal.Reference(ref.Name())
+		return err == plumbing.ErrReferenceNotFound
+	}, baseIter)
+
 	return storer.NewMultiReferenceIter([]storer.ReferenceIter{
 		baseIter,
 		temporalIter,
